@@ -44,6 +44,7 @@
 //	              TotVol, UlVol, DlVol, TotPkt, UlPkt, DlPkt}
 //	k.ReportHook func(req *SimRequest, occ SimOccasion, oids []SimOID) []SimReport   overrides SetReports when non-nil
 //	k.SetVersion(s)                                    scriptable GET_VERSION answer
+//	k.Reset()                                          forget rules, scripted reports, failure schedule, log, request counter
 //	k.FailAt(n, errno)             the n-th request (0-based, counted over "main"+"ps") is answered with errno, no effect
 //	k.FailWhen(func(*SimRequest) syscall.Errno)        predicate form (0 = do not fail); evaluated for every request
 //	k.OnRequest func(*SimRequest)                      called (without the lock) before a request is processed: delay/block here
@@ -429,6 +430,22 @@ func newSimKernel(o VerifOpts) *SimKernel {
 		k.reports[i] = map[SimOID][]SimReport{}
 	}
 	return k
+}
+
+// Reset forgets all rules, scripted reports, failure schedules and the request log (version and hooks stay).
+func (k *SimKernel) Reset() {
+	k.mu.Lock()
+	defer k.mu.Unlock()
+	for i := range k.rules {
+		k.rules[i] = map[SimOID]*SimRule{}
+	}
+	for i := range k.reports {
+		k.reports[i] = map[SimOID][]SimReport{}
+	}
+	k.failAt = map[int]syscall.Errno{}
+	k.failWhen = nil
+	k.log = nil
+	k.nreq = 0
 }
 
 func (k *SimKernel) SetVersion(s string) {
